@@ -105,7 +105,7 @@ func sampleTarget(mi *methodInfo, md protoreflect.MessageDescriptor, r *gen.R) s
 
 func c08Headers(c *Ctx, r *gen.R) error {
 	res := c.Res
-	n := c.N(3, 10)
+	n := c.N(4, 24)
 	scs := make([]*c08hSchema, n)
 	for i := range scs {
 		if i == 0 {
@@ -125,7 +125,7 @@ func c08Headers(c *Ctx, r *gen.R) error {
 		return err
 	}
 	defer td.Close()
-	perRoute := c.N(10, 30)
+	perRoute := c.N(12, 40)
 	for i, sc := range scs {
 		sc.x = items[i]
 		pr, err := plug.Run(plug.TSServer, sc.req, nil)
